@@ -1045,13 +1045,27 @@ func runC11(a vh.Args, o *vh.Oracle, r *vh.Result) error {
 	r.Rule = "sequential case = (member contents + per-call fault schedules, chain shape of depth <= 4 incl. the CLI shapes, optional SwapStore/SwapWriteStore, 6-24 operations Get/Has/Store/Swap/Close over 6 ids); non-trivial = the calls of the case reached two or more distinct members; distinct by (chain, operations, members). concurrent case = (failover group or swap store, goroutines, yield-hook schedule seed)"
 	if a.Replay != "" {
 		var probe struct {
-			Conc string   `json:"conc"`
-			Blob string   `json:"blob_hex"`
-			Hist []string `json:"hist"`
+			Conc   string   `json:"conc"`
+			Blob   string   `json:"blob_hex"`
+			Hist   []string `json:"hist"`
+			Reload string   `json:"reload"`
 		}
 		readJSON(a.Replay, &probe)
 		if probe.Conc != "" {
 			return c11ReplayConc(a, o, r)
+		}
+		if probe.Reload != "" {
+			var rc c11ReloadCase
+			if err := readJSON(a.Replay, &rc); err != nil {
+				return err
+			}
+			bin := c11ReloadBinary(a, r)
+			if bin == "" {
+				return fmt.Errorf("reload driver binary not available")
+			}
+			err := c11CheckReload(a, o, r, bin, &rc, 0)
+			fmt.Printf("configurations: %v\nobserved: %s\nmodel: %s\n", rc.Configs, string(rc.Steps), rc.Model)
+			return err
 		}
 		if len(probe.Hist) > 0 {
 			var hc c11HistCase
@@ -1130,6 +1144,9 @@ func runC11(a vh.Args, o *vh.Oracle, r *vh.Result) error {
 		return err
 	}
 	if err := c11CLI(a, o, r, rng); err != nil {
+		return err
+	}
+	if err := c11Reload(a, o, r, rng); err != nil {
 		return err
 	}
 	if a.Tier == "thorough" {
